@@ -62,6 +62,9 @@ func c02Program(specs []fnSpec) *Prog {
 			r := fmt.Sprintf("r%d", i+1)
 			st = append(st, Define{Names: []string{r}, Form: DefShort, Vals: []Expr{Binary{Op: "+", L: Call{Fn: name, Args: args}, R: lit(1)}}}, show("main:after-val-"+name, Var{r}))
 			st = append(st, Print{Args: []Expr{StrLit{V: "main:direct"}, Call{Fn: name, Args: args}, Call{Fn: name, Args: args}}})
+			// simultaneous assignment whose later value is a call (the callee may itself assign simultaneously)
+			st = append(st, Assign{Names: []string{"x", "g"}, Vals: []Expr{Binary{Op: "+", L: Var{"g"}, R: lit(1)}, Call{Fn: name, Args: args}}}, show("main:assign-with-call-"+name))
+			st = append(st, Assign{Names: []string{"g", "y", "x"}, Vals: []Expr{Var{"x"}, Call{Fn: name, Args: args}, Var{"g"}}}, show("main:rotate-with-call-"+name))
 		case s.nret >= 2:
 			var names []string
 			var vars []Expr
@@ -325,6 +328,42 @@ func c02Typed() []*Prog {
 				Print{Args: []Expr{StrLit{V: "len"}, Len{X: Var{"a"}}, Len{X: Var{"w"}}}},
 			)
 		}
+	}
+	// string arguments incl. the empty string in every position (arguments bind in order, by value)
+	{
+		strs := []Expr{StrLit{V: "x"}, StrLit{V: ""}, StrLit{V: "a b"}, StrLit{V: "yy"}}
+		join3 := FuncDef{Name: "join3", Params: []Param{{"a", TStr}, {"b", TStr}, {"c", TStr}}, Rets: []Type{TStr}, Body: []Stmt{
+			Return{Vals: []Expr{Binary{Op: "+", L: Binary{Op: "+", L: Binary{Op: "+", L: Binary{Op: "+", L: Binary{Op: "+", L: Binary{Op: "+", L: StrLit{V: "["}, R: Var{"a"}}, R: StrLit{V: "|"}}, R: Var{"b"}}, R: StrLit{V: "|"}}, R: Var{"c"}}, R: StrLit{V: "]"}}}}}}
+		tag := FuncDef{Name: "tag", Params: []Param{{"s", TStr}, {"n", TInt}, {"f", TBool}}, Body: []Stmt{Print{Args: []Expr{StrLit{V: "tag"}, Binary{Op: "+", L: Binary{Op: "+", L: Var{"s"}, R: StrLit{V: "#"}}, R: Itoa{X: Var{"n"}}}, Var{"f"}}}}}
+		st := []Stmt{join3, tag, Define{Names: []string{"e"}, Form: DefShort, Vals: []Expr{StrLit{V: ""}}}, Define{Names: []string{"w"}, Form: DefShort, Vals: []Expr{StrLit{V: "vw"}}}}
+		for _, a := range strs {
+			for _, b := range strs {
+				for _, c := range strs {
+					st = append(st, Print{Args: []Expr{Call{Fn: "join3", Args: []Expr{a, b, c}}}})
+				}
+			}
+		}
+		st = append(st,
+			Print{Args: []Expr{Call{Fn: "join3", Args: []Expr{Var{"e"}, Var{"w"}, Var{"e"}}}}},
+			Print{Args: []Expr{Call{Fn: "join3", Args: []Expr{Var{"w"}, Var{"e"}, Binary{Op: "+", L: Var{"e"}, R: Var{"e"}}}}}},
+			Print{Args: []Expr{Call{Fn: "join3", Args: []Expr{Call{Fn: "join3", Args: []Expr{StrLit{V: ""}, StrLit{V: ""}, StrLit{V: ""}}}, StrLit{V: ""}, Itoa{X: lit(0)}}}}},
+			ExprStmt{X: Call{Fn: "tag", Args: []Expr{StrLit{V: ""}, lit(7), BoolLit{true}}}},
+			ExprStmt{X: Call{Fn: "tag", Args: []Expr{Var{"e"}, lit(0), BoolLit{false}}}},
+			ExprStmt{X: Call{Fn: "tag", Args: []Expr{StrLit{V: "t"}, lit(-3), Binary{Op: "==", L: Var{"e"}, R: StrLit{V: ""}}}}},
+		)
+		mk(st...)
+	}
+	// ten and more parameters
+	{
+		var ps []Param
+		var args, sum []Expr
+		for i := 1; i <= 11; i++ {
+			ps = append(ps, Param{fmt.Sprintf("p%d", i), TInt})
+			args = append(args, lit(i*3))
+			sum = append(sum, Var{fmt.Sprintf("p%d", i)})
+		}
+		mk(FuncDef{Name: "many", Params: ps, Rets: []Type{TInt}, Body: []Stmt{Print{Args: sum}, Return{Vals: []Expr{Var{"p11"}}}}},
+			Print{Args: []Expr{StrLit{V: "last"}, Call{Fn: "many", Args: args}}})
 	}
 	return out
 }
